@@ -17,6 +17,8 @@ pub struct Case {
   pub late: bool,
   pub seed: u64,
   pub wakes: Vec<TAct>,
+  /// ns the clock moves between subscription and the executor's first run
+  pub gap: u64,
 }
 
 fn scripted(r: &mut Rng, allow_err: bool, max_items: usize) -> Scripted {
@@ -38,9 +40,17 @@ pub fn random_case(r: &mut Rng) -> Case {
     5 => Src::TimerAt(V::I(5), *r.pick(&[-20i64, 0, 10, 3_600_000])),
     6 => Src::Future(301, scripted(r, false, 1)),
     7 => Src::FutureRes(301, scripted(r, true, 1)),
-    8 | 9 => Src::Stream(301, scripted(r, false, 4)),
-    _ => Src::StreamRes(301, scripted(r, true, 4)),
+    8 | 9 => {
+      let long = r.chance(1, 6);
+      Src::Stream(301, long_or_short(r, false, long))
+    }
+    _ => {
+      let long = r.chance(1, 6);
+      Src::StreamRes(301, long_or_short(r, true, long))
+    }
   };
+  let timed = matches!(src, Src::Interval(_) | Src::IntervalAt(..) | Src::Timer(..) | Src::TimerAt(..));
+  let gap = if timed && r.chance(1, 3) { [p * MS / 2, p * MS - 1, p * MS, 3 * p * MS + 1, 3 * MS][r.below(5)] } else { 0 };
   let mut wakes = vec![];
   if let Src::Future(id, s) | Src::FutureRes(id, s) | Src::Stream(id, s) | Src::StreamRes(id, s) = &src {
     if !s.self_wake {
@@ -59,7 +69,24 @@ pub fn random_case(r: &mut Rng) -> Case {
     late: r.chance(1, 2),
     seed: r.next(),
     wakes,
+    gap,
   }
+}
+
+/// long streams: runs of up to 100 items that are all ready at once
+fn long_or_short(r: &mut Rng, allow_err: bool, long: bool) -> Scripted {
+  if !long {
+    return scripted(r, allow_err, 4);
+  }
+  let n = 20 + r.below(81);
+  let sparse = r.chance(1, 2);
+  let mut items: Vec<(u8, Result<V, E>)> =
+    (0..n).map(|i| (if sparse && r.chance(1, 25) { 1 } else { 0 }, Ok(V::I(10 + i as i64)))).collect();
+  if allow_err && r.chance(1, 3) {
+    let pos = r.below(items.len() + 1);
+    items.insert(pos, (0, Err(33)));
+  }
+  Scripted { items, end_pending: r.below(2) as u8, endless: false, self_wake: r.chance(1, 2) }
 }
 
 pub struct Obs {
@@ -76,7 +103,7 @@ pub fn observe(c: &Case) -> Result<Obs, String> {
   let horizon = 4_000_000 * MS; // beyond the one-hour instants
   let pipe = Pipe { chain: Chain::new(c.src.clone(), ops), n_hot: 1, acts: c.wakes.clone(), horizon };
   let t0 = std::time::Instant::now();
-  let out = run_pipe(c.flavor, &pipe, c.policy, c.late, c.seed, &mut |_, _, _| {})?;
+  let out = run_pipe_gap(c.flavor, &pipe, c.policy, c.late, c.seed, c.gap, &mut |_, _, _| {})?;
   let eps = t0.elapsed().as_nanos() as u64 + 1_000_000; // real time the case took, plus 1ms slack for the builder
   let polls = out.evs.iter().filter(|e| matches!(e.k, crate::log::K::Mark("poll", _))).count();
   let was_pending = polls >= 2;
@@ -127,14 +154,16 @@ pub fn judge(c: &Case, o: &Result<Obs, String>) -> Option<(String, String, serde
         return bad("wrong_values", format!("expected 0..{} then complete", c.take));
       }
       // first tick
+      // g: the executor's first run; a tick due before it happens at it
+      let g = c.gap;
       let (lo, hi): (u64, u64) = match &c.src {
-        Src::Interval(_) => (p, p),
+        Src::Interval(_) => (p.max(g), p.max(g)),
         Src::IntervalAt(off, _) if *off > 0 => {
           let off = *off as u64 * MS;
-          (off.saturating_sub(o.eps), off)
+          (off.saturating_sub(o.eps).max(g), off.max(g))
         }
         // an instant that already passed: "now", at the latest one period from now
-        _ => (0, p),
+        _ => (g, p.max(g)),
       };
       if times[0] < lo {
         return bad("early_tick", format!("first tick at {}ns, not before {}ns", times[0], lo));
@@ -156,15 +185,19 @@ pub fn judge(c: &Case, o: &Result<Obs, String>) -> Option<(String, String, serde
       if notes != vec![N::Next(v.clone()), N::Complete] {
         return bad("wrong_values", "timer must emit its item once and complete".into());
       }
+      let g = c.gap;
       let (lo, hi): (u64, u64) = match &c.src {
-        Src::Timer(_, d) => (*d * MS, *d * MS),
-        Src::TimerAt(_, off) if *off > 0 => ((*off as u64 * MS).saturating_sub(o.eps), *off as u64 * MS),
-        _ => (0, 0),
+        Src::Timer(_, d) => ((*d * MS).max(g), (*d * MS).max(g)),
+        Src::TimerAt(_, off) if *off > 0 => ((*off as u64 * MS).saturating_sub(o.eps).max(g), (*off as u64 * MS).max(g)),
+        _ => (g, g),
       };
       if times[0] < lo {
         return bad("early_tick", format!("timer fired at {}ns, due {}ns", times[0], lo));
       }
-      if exact && times[0] > hi {
+      // the statement bounds timers from below only; the delay of a one-shot
+      // task is armed when the executor first polls it, so after an idle gap
+      // it legitimately fires later than subscription + delay
+      if exact && g == 0 && times[0] > hi {
         return bad("late_tick", format!("timer fired at {}ns, due {}ns", times[0], hi));
       }
       None
@@ -214,6 +247,12 @@ pub fn run(cfg: &Cfg, rep: &mut Report) {
       }
       rep.distinct("distinct_schedules", obs.choice_hash ^ hash64(&c.src));
       rep.count(if c.late { "late_schedule_runs" } else { "due_stepping_runs" }, 1);
+      if c.gap > 0 {
+        rep.count("runs_with_idle_gap_before_first_poll", 1);
+      }
+      if obs.timed.len() > 32 {
+        rep.count("long_stream_runs", 1);
+      }
     }
     if let Some((kind, locus, detail)) = judge(&c, &o) {
       let cls = match &c.src {
@@ -222,6 +261,7 @@ pub fn run(cfg: &Cfg, rep: &mut Report) {
         Src::IntervalAt(..) => "[past instant]",
         _ => "",
       };
+      let cls = format!("{}{}", cls, if c.gap > 0 { "[idle gap before the first run]" } else { "" });
       rep.violation(&kind, &format!("{}{}", locus, cls), &id, json!({"case": format!("{:?}", c), "result": detail}));
     } else if let Ok(obs) = &o {
       rep.sample_some(5003, || {
